@@ -277,7 +277,7 @@ func (x *X) unreachable(cond string) bool {
 	// path infeasible) so that a feasible path gets its "sat" quickly instead of a time-out
 	q := qfVariant(instVariant(x.sc.Text())) + x.strLitDecls() + "(assert " + cond + ")\n"
 	t0 := time.Now()
-	r := SolveWith("prune", q, 2, []string{"z3-new-5.1.0"})
+	r := SolveWith("prune", q, 15, []string{"z3-new-5.1.0"}) // (the resource limit set in SolveWith decides; the time limit is a backstop)
 	if os.Getenv("GOVC_DEBUG") != "" {
 		fmt.Fprintf(os.Stderr, "prune query: %s in %.2fs (%d lines)\n", r, time.Since(t0).Seconds(), len(x.sc.lines))
 	}
